@@ -772,6 +772,43 @@ impl Modelled for ETwins {
 		}
 	}
 }
+/// two-variant twins: the later variant has the same field type in a LONGER representation and
+/// alone decides the declared maximum
+macro_rules! twin_enum {
+	($name:ident, $t:ty, $bytes:expr, $bits:expr, $second:meta) => {
+		#[derive(Encode, Decode, DecodeWithMemTracking, MaxEncodedLen, Debug, PartialEq, Clone)]
+		pub enum $name {
+			Plain($t),
+			Other(#[$second] $t),
+		}
+		impl Modelled for $name {
+			fn ty() -> Ty {
+				let v = |name: &str, index: u8, fields: Vec<FieldTy>| VariantTy { name: name.into(), index, skipped: false, fields };
+				Ty::Enum {
+					name: stringify!($name).into(),
+					variants: vec![v("Plain", 0, vec![FieldTy::plain(Ty::u($bytes))]), v("Other", 1, vec![FieldTy::as_(Ty::u($bytes), Ty::Compact { bits: $bits })])],
+				}
+			}
+			fn to_val(&self) -> Val {
+				match self {
+					$name::Plain(a) => Val::Variant(0, vec![a.to_val()]),
+					$name::Other(a) => Val::Variant(1, vec![a.to_val()]),
+				}
+			}
+			fn from_val(v: &Val) -> Self {
+				match v {
+					Val::Variant(0, f) => $name::Plain(<$t>::from_val(&f[0])),
+					Val::Variant(1, f) => $name::Other(<$t>::from_val(&f[0])),
+					_ => panic!("twin enum: {:?}", v),
+				}
+			}
+		}
+	};
+}
+twin_enum!(ETwin32, u32, 4, 32, codec(compact));
+twin_enum!(ETwin16, u16, 2, 16, codec(encoded_as = "Compact<u16>"));
+twin_enum!(ETwin128, u128, 16, 128, codec(compact));
+
 fn fields_of(v: &Val) -> &Vec<Val> {
 	match v {
 		Val::Variant(_, f) => f,
